@@ -250,6 +250,24 @@ func RunTwin(ops []TOp, cfg Config) *TwinResult {
 			out.Viol = append(out.Viol, Violation{Prop: "C20", Msg: fmt.Sprintf("verifier counter ranges_verified = %d, reports delivered = %d", got, out.Delivered)})
 		}
 		checkSkips(reports, bad)
+		// nothing was altered anywhere in this run: no report may speak of corruption (C16). Sequences that
+		// hand in a "follower" checkpoint with made-up metadata (cp=valid) are excluded: there the sums
+		// differ by construction.
+		fabricated := false
+		for _, op := range ops {
+			if op.CP == "valid" {
+				fabricated = true
+			}
+		}
+		for _, r := range reports {
+			if fabricated {
+				break
+			}
+			var mism verifier.ErrChecksumMismatch
+			if errors.As(r.Err, &mism) {
+				out.Viol = append(out.Viol, Violation{Prop: "C16", Msg: fmt.Sprintf("false alarm over a real WAL: nothing was altered, yet the report for range %s says: %v", r.Range, r.Err)})
+			}
+		}
 		fl, _ := b.W.FirstIndex()
 		ll, _ := b.W.LastIndex()
 		out.FinalSig = fmt.Sprintf("[%d,%d] cp=%d del=%d drop=%d", fl, ll, out.Checkpoints, out.Delivered, out.Dropped)
